@@ -1,7 +1,7 @@
 """C05 - blocks tile each parameter exactly (views, row-major, <= max_preconditioner_dim) and blocking does not
 change the math.
 
-ENUM part: all shapes of order 0..4 (dims <= 4 quick / 5 thorough) x all thresholds x merge on/off through the real
+ENUM part: all shapes of order 0..4 (dims <= 4 quick / 6 thorough) x all thresholds x merge on/off through the real
 Distributor with arange contents: the block contents ARE the flat indices, so tiling/order/box-ness are decided exactly
 and compared with the independent ref_blocks.  SEQ part: optimizer on the blocked tensor vs optimizer on contiguous
 copies of its blocks as separate parameters, over all mask histories.
@@ -20,18 +20,18 @@ from ..refs.blocks import ref_blocks, ref_merge
 ID = "C05"
 TECHNIQUE = "bounded-exhaustive enumeration of shapes x thresholds x merge flag on the real Distributor (index-set oracle from arange contents) + exploration of all mask histories for blocked-vs-presplit optimizers"
 RULE = (
-    "tiling: all shapes of order 0..4 with dims in 1..Dmax (4 quick, 5 thorough) x max_preconditioner_dim in {1..7,1024} x merge {on,off} (thresholds 2, 3, 1024 additionally with the parameter/gradient as views at a non-zero storage offset and with a gradient in another memory layout); "
+    "tiling: all shapes of order 0..4 with dims in 1..Dmax (4 quick, 6 thorough) x max_preconditioner_dim in {1..7,1024} x merge {on,off} (thresholds 2, 3, 1024 additionally with the parameter/gradient as views at a non-zero storage offset and with a gradient in another memory layout); "
     "invariance: configs x shapes {(5,3),(4,4),(2,3,4),(7,),(2,1,3)} x thresholds {2,3} x all mask histories of depth D over 2 parameters. "
     "state = (shape,threshold,merge) resp. visible optimizer digest; non-trivial = parameter split into >= 2 blocks"
 )
-ASSUMPTIONS = ["dims <= 5 only; larger shapes only through structured cases of C07", "few-ulp tolerance (8 ulp of max-abs) for the invariance comparison"]
+ASSUMPTIONS = ["dims <= 6 only; larger shapes only through structured cases of C07", "few-ulp tolerance (8 ulp of max-abs) for the invariance comparison"]
 TRUSTED = ["mc.refs.blocks.ref_blocks", "torch untyped_storage().data_ptr()"]
 EXHAUSTIVE = True
 THRESHOLDS = [1, 2, 3, 4, 5, 6, 7, 1024]
 
 
 def bounds(tier):
-    return {"max_dim_size": 4 if tier == "quick" else 5, "orders": "0..4", "thresholds": THRESHOLDS, "invariance_depth": 2 if tier == "quick" else 3}
+    return {"max_dim_size": 4 if tier == "quick" else 6, "orders": "0..4", "thresholds": THRESHOLDS, "invariance_depth": 2 if tier == "quick" else 3}
 
 
 def all_shapes(dmax):
@@ -70,7 +70,7 @@ def inv_cfgs(tier, seed):
 
 
 def work(tier, seed):
-    dmax = 4 if tier == "quick" else 5
+    dmax = 4 if tier == "quick" else 6
     shapes = all_shapes(dmax) + ZERO_SHAPES
     units = [{"part": "tile", "shapes": ch} for ch in common.chunks(shapes, max(4, len(shapes) // 48))]
     depth = 2 if tier == "quick" else 3
